@@ -74,8 +74,16 @@ func (e *DefaultExecutor) Execute(ctx context.Context, job *Job) ([]byte, error)
 		return nil, err
 	}
 
-	env := e.env
-	env = append(env, utils.ConvertEnv(utils.ConvertToMapOfStrings(job.Env.Map()))...)
+	// the interpreter sorts and de-duplicates "name=value" pairs, which would let the greater value win:
+	// drop inherited variables that the job overrides
+	jobEnv := utils.ConvertToMapOfStrings(job.Env.Map())
+	env := make([]string, 0, len(e.env)+len(jobEnv))
+	for _, pair := range e.env {
+		if _, ok := jobEnv[strings.SplitN(pair, "=", 2)[0]]; !ok {
+			env = append(env, pair)
+		}
+	}
+	env = append(env, utils.ConvertEnv(jobEnv)...)
 
 	if job.Dir == "" {
 		job.Dir = e.dir
